@@ -10,7 +10,9 @@ func init() {
 			wide.Budget = 60000000
 			table := &Job{Name: "table", Pkg: "ti", Entry: "VerifBuiltinTable", N: 0, Budget: 60000000, MaxDepth: 300, Reach: []string{"ran"}, Asserts: []string{"C12-table"}, Replay: "kernel", Config: "core",
 				Bound: "each of the 13 + 21 C12 programs, evaluated through the four real rounds (evaluationLoop in load mode); afterwards every Builtin-frame method T of TFrame (arguments, return type, variants, overloads, block parameters, flags incl. IsInclude/IsExtend/IsStatic/Defined*) is compared with a snapshot taken before; leaf kinds solver variables; replayed in a natively compiled test binary"}
-			return []*Job{wide, table, f4Job("stable", "VerifBuiltinStable", 0, []string{"ran"}, []string{"C12-probe"},
+			tableFull := &Job{Name: "table-full-config", Pkg: "ti", Entry: "VerifBuiltinTable", N: 1, Budget: 60000000, MaxDepth: 300, Reach: []string{"ran"}, Asserts: []string{"C12-table"}, Replay: "kernel", Config: "",
+				Bound: "4 programs calling methods that the full shipped configuration declares in frames other than Builtin (Builtin::GPIO, ActiveRecord) with arguments of solver-chosen kinds (6 kinds); afterwards every configured method T of TFrame in a Builtin or non-user frame is compared with a snapshot taken before; replayed in a natively compiled test binary"}
+			return []*Job{wide, table, tableFull, f4Job("stable", "VerifBuiltinStable", 0, []string{"ran"}, []string{"C12-probe"},
 				"13 (program, probe) pairs: the program calls builtin methods on receivers/arguments of solver-chosen kinds (Sym.a, Sym.b, union Sym.u); the probe uses the same methods on fresh literals; probe alone vs. probe after the program (Snapshot/Restore in one path), plus a deep comparison of every Builtin-frame method T in TFrame before/after")}
 		},
 		Custom:    replayPair,
